@@ -1046,6 +1046,10 @@ func (e *env) readLives(st *roundState, expectN func(f *fence) int) map[string][
 			if err != nil {
 				e.r.Fail(hx.Failure{Kind: "correspondence", Signature: "fence-live", What: "live fence delivered fewer messages than the model predicts: " + err.Error(),
 					Case: map[string]interface{}{"round": st.label, "fence": f.describe()}})
+				// out of step from here on: stop listening to this connection
+				l.Close()
+				delete(st.lives, name)
+				e.remove(st, name)
 				break
 			}
 			out[name] = append(out[name], m)
